@@ -231,6 +231,10 @@ class XPathMap(XPathFunction):
         except KeyError:
             return []
 
+    @property
+    def arity(self) -> int:
+        return 1  # a map or an array is a function of one argument
+
     def keys(self, context: ta.ContextType = None) -> MapKeysView:
         if self._map is None:
             self._map = self._evaluate(context)
